@@ -88,12 +88,15 @@ def check(ck):
     fs = prog.func(TP, "ThreadPool.stop")
     gs = cfg_of(fs)
     ds = dominators(gs)
-    first = [n for n in gs.live_nodes() if n.kind == "test"]
-    first.sort(key=lambda n: n.lineno)
-    okk = bool(first) and dump(first[0].ast) == "self._done_event.is_set()"
-    guard_ret = [n for n in gs.live_nodes() if n.kind == "return" and any(gs.nodes[i].kind == "branch" and dump(gs.nodes[i].test) == "self._done_event.is_set()" and gs.nodes[i].polarity for i in ds[n.id])]
-    ck.require(okk and len(guard_ret) == 1, "C11.3", "%s: idempotence guard" % q.fn(fs), "returns at once when already stopped",
-               "stop() has no idempotence guard on the stop flag", q.loc(fs, fs.node))
+    # idempotence: everything stop() does (flag, sentinels, joins, clearing) happens only on the "not yet stopped" edge of a
+    # test of the stop flag - spelled as an early return or as an enclosing `if not ...is_set()`
+    effects = [n for n in gs.live_nodes() for c in node_calls(n)
+               if dump(c.func) in ("self._done_event.set", "self._queue.put", "self.clear") or (call_name(c) == "join" and isinstance(c.func.value, ast.Name))]
+    effects += [n for n in gs.live_nodes() if n.kind == "stmt" and isinstance(n.ast, ast.Delete)]
+    okk = bool(effects) and all(any(gs.nodes[i].kind == "branch" and dump(gs.nodes[i].test) == "self._done_event.is_set()" and not gs.nodes[i].polarity
+                                    for i in ds[n.id]) for n in effects)
+    ck.require(okk, "C11.3", "%s: idempotence guard" % q.fn(fs), "nothing is done when already stopped",
+               "stop() has no idempotence guard on the stop flag: some of its steps run although the pool is already stopped", q.loc(fs, fs.node))
     flag = [n for n in gs.live_nodes() for c in node_calls(n) if dump(c.func) == "self._done_event.set"]
     sput = [n for n in gs.live_nodes() for c in node_calls(n) if dump(c.func) == "self._queue.put"]
     joins = [n for n in gs.live_nodes() for c in node_calls(n) if call_name(c) == "join" and isinstance(c.func.value, ast.Name)]
